@@ -2,7 +2,12 @@
 
 Stage 0: replay corpus/C15/*.json against the implementation through the oracle.
 Stage G: tr_dht_consts (limits, periods, deque bound) -> gen/G15_consts.v
-Stage P: props/C15.v
+         tr_dht_handlers (Storage.put/get/clean, Value.expired/__eq__, Node.blocked, the stored-value codec,
+         add_value, post_process_values, generate/check_token and the decisions of get_requesting_node,
+         on_store_request, on_find_request, on_store_peer_request, token_maintenance compiled from the AST)
+         -> gen/G15_handlers.v
+Stage P: props/C15.v (hand model), props/C15x.v (the generated definitions refine the hand model; the C15 statements
+         over them; the per-peer rate limit: a blocked sender's request changes nothing)
 Stage C: a real DHTDiscoveryCommunity on simnet under a virtual clock is fed hand-packed, really signed
          find / store / store-peer datagrams (tokens: fresh, one rotation old, expired, issued to another
          address, to another key, by another node, random; values: plain, signed, boundary sizes, oversized,
@@ -10,8 +15,11 @@ Stage C: a real DHTDiscoveryCommunity on simnet under a virtual clock is fed han
          malformed key; versions older / equal / newer), interleaved with token rotations, clock advances and
          value maintenance - both with the timers cancelled (explicit interleaving) and with the node's own
          timers running; plus long put / get / clean histories on a bare Storage.  The same concrete operation
-         lists are evaluated by the hand model coq/model/M15_dht_store.v inside Coq (SHA-1, the signature
-         checks and the key vault enter as per-case tables computed here with hashlib / the key vault directly).
+         lists are evaluated inside Coq by the hand model coq/model/M15_dht_store.v AND by the node assembled from
+         the generated definitions, coq/model/M15_store_gen.v, which also has the rate limit (bursts of more than
+         10 requests of one node within 5 s; whether the routing table holds / keeps the sender is observed and
+         given to the model).  SHA-1, the signature checks and the key vault enter as per-case tables computed
+         here with hashlib / the key vault directly.
 Oracle : an independent Python statement of the property on what the implementation did (see `oracle`).
 """
 from __future__ import annotations
@@ -32,6 +40,9 @@ from tools.vlib.repoenv import VERIF
 IMPORTS = ("From Coq Require Import ZArith List Bool.\n"
            "From IPV8V Require Import lib.PyErr lib.Bytes model.M15_lits model.M15_dht_store.\n"
            "Import ListNotations.\nOpen Scope Z_scope.\n")
+IMPORTS_GEN = ("From Coq Require Import ZArith List Bool.\n"
+               "From IPV8V Require Import lib.PyErr lib.Bytes model.M15_lits model.M15_dht_store model.M15_py gen.G15_handlers "
+               "model.M15_store_gen.\nImport ListNotations.\nOpen Scope Z_scope.\n")
 CORPUS = os.path.join(VERIF, "corpus", "C15")
 BASE = 1.7e9
 
@@ -41,6 +52,8 @@ SPEC_MAX_VALUES = 8
 SPEC_TOKEN_WINDOW = 600       # "Maximum number of seconds a token can remain valid"
 SPEC_TOKEN_GENERATIONS = 2    # a token survives at most one rotation
 SPEC_MAX_ENTRY_AGE = 3600
+SPEC_RATE_QUERIES = 10        # "we allow a maximum number of 10 queries during a 5s interval. Additional queries will be dropped"
+SPEC_RATE_INTERVAL = 5
 
 N_ADDR = ("10.0.0.1", 1000)
 M_ADDR = ("10.0.0.9", 9000)
@@ -387,6 +400,7 @@ class NodeRun:
         self.secret0 = bytes(self.N.token_secrets[0])
         self.N.vlog.clear()
         self.N.vsnap = self.storage
+        self.seen = []       # node ids in order of their first admitted request
         self.issued = {}     # requester index -> tokens issued by N, oldest first
         self.foreign = {}    # requester index -> token issued by M
         self.ident = 0
@@ -436,6 +450,26 @@ class NodeRun:
                 self.trace.append({"op": ("clean", as_int(ev[1] - BASE, "maintenance time")), "t": self.now(),
                                    "after": ev[2]})
         self.N.vlog.clear()
+
+    def admission(self, r, src=None):
+        """what get_requesting_node will find: the sender's node id and whether the routing table holds it"""
+        (addr, k) = self.rqs[r]
+        nid = node_id((src or addr)[0], sha1(self.w.pk[k]))
+        rt = self.N.routing_tables.get(self.UDPv4Address)
+        return nid, bool(rt is not None and rt.has(nid))
+
+    def held(self, nid):
+        rt = self.N.routing_tables.get(self.UDPv4Address)
+        return bool(rt is not None and rt.has(nid))
+
+    def queries(self):
+        """Node.last_queries of the routing table's objects for the senders seen so far, in order of first admission"""
+        rt = self.N.routing_tables.get(self.UDPv4Address)
+        out = []
+        for nid in self.seen:
+            n = rt.get(nid) if rt is not None else None
+            out.append((nid, [as_int(t - BASE, "query time") for t in n.last_queries] if n is not None else []))
+        return out
 
     def send(self, ov, r, msg_id, body, src=None):
         (addr, k) = self.rqs[r]
@@ -490,6 +524,8 @@ class NodeRun:
             _, r, ti, offset, force = o
             ov = self.N if kind == "find" else self.M
             self.ident += 1
+            nid, known = self.admission(r)
+            qbefore = self.queries() if kind == "find" else None
             out = self.send(ov, r, 5, body_find(self.ident, self.rqs[r][0], self.targets[ti], offset, force))
             resp = [x for x in out if x[0] == 6 and x[1] == self.ident]
             obs = parse_find_response(resp[0][2]) if resp else None
@@ -499,7 +535,10 @@ class NodeRun:
                 return
             if obs:
                 self.issued.setdefault(r, []).append(obs[0])
-            e.update(op=("find", r, self.targets[ti], offset, force), obs=obs, exc=list(self.exc))
+            e.update(op=("find", r, self.targets[ti], offset, force), obs=obs, exc=list(self.exc),
+                     adm=(nid, self.now(), known, self.held(nid)), qbefore=qbefore)
+            if obs is not None and nid not in self.seen:
+                self.seen.append(nid)
         elif kind == "store":
             _, r, tspec, ti, vidx = o[:5]
             src = tuple(o[5]) if len(o) > 5 and o[5] else None
@@ -507,10 +546,24 @@ class NodeRun:
             self.ident += 1
             vals = [self.pool[i] for i in vidx]
             del _CLOSEST[:]
+            nid, known = self.admission(r, src)
+            qbefore = self.queries()
+            rt0 = self.N.routing_tables.get(self.UDPv4Address)
+            n0 = rt0.get(nid) if rt0 is not None else None
+            lq_before = [as_int(t - BASE, "q") for t in n0.last_queries] if n0 is not None else []
             out = self.send(self.N, r, 3, body_store(self.ident, tok, self.targets[ti], vals), src=src)
             resp = any(x[0] == 4 and x[1] == self.ident for x in out)
             e.update(op=("store", r, self.now(), tok, self.targets[ti], list(vidx), self.num_closer(self.targets[ti])),
-                     obs=(resp, self.exc[0] if self.exc else None), src=src)
+                     obs=(resp, self.exc[0] if self.exc else None), src=src,
+                     adm=(nid, self.now(), known, self.held(nid)), qbefore=qbefore)
+            # admitted (not rate limited): a sender the table did not hold is never limited; one it held got its
+            # query history stamped (a full deque of stamps equal to now would mean blocked, so the content changes)
+            rt = self.N.routing_tables.get(self.UDPv4Address)
+            n_ = rt.get(nid) if rt is not None else None
+            lq_after = [as_int(t - BASE, "q") for t in n_.last_queries] if n_ is not None else []
+            e["admitted"] = bool((not known) or lq_after != (lq_before or []))
+            if e["admitted"] and nid not in self.seen:
+                self.seen.append(nid)
         elif kind == "storepeer":
             _, r, tspec, tkind = o
             tok = self.token_of(r, tspec) or bytes(20)
@@ -548,6 +601,7 @@ class NodeRun:
         else:
             raise HarnessError("op %r" % (o,))
         e["after"] = self.storage()
+        e["qafter"] = self.queries()
         e["pbefore"], e["pafter"] = pbefore, self.peers()
         self.trace.append(e)
         self.drain()
@@ -645,10 +699,27 @@ def oracle(case, run):
     timers = bool(case.get("timers"))
     rot = 0                       # rotations so far
     issued = []                   # (token, address, key bin, rotation count at issue, time)
+    hist = {}                     # node id -> times of the requests of that node that were let through (rate limit)
     for step, e in enumerate(run["trace"]):
         op = e["op"]
         before, after = e.get("before"), e["after"]
         where = "operation %d (%s)" % (step, op[0])
+        limited = False
+        if op[0] in ("find", "store") and e.get("adm"):
+            nid, t_req, known_, kept_ = e["adm"]
+            lq = hist.get(nid, []) if known_ else []
+            limited = bool(known_ and len(lq) >= SPEC_RATE_QUERIES and t_req - lq[-SPEC_RATE_QUERIES] < SPEC_RATE_INTERVAL)
+            served = (e["obs"] is not None) if op[0] == "find" else bool(e["obs"][0] or after != before or e["obs"][1])
+            if limited:
+                if served:
+                    report("ratelimit/blocked-request-served", "%s: served although %d requests of this node were let through in the last %d s" % (
+                        where, SPEC_RATE_QUERIES, SPEC_RATE_INTERVAL))
+                if after != before or e.get("pafter") != e.get("pbefore"):
+                    report("ratelimit/blocked-request-changes-state", "%s: a request over the rate limit changed the node's state" % where)
+                if e.get("qbefore") is not None and e.get("qafter") != e.get("qbefore"):
+                    report("ratelimit/blocked-request-stamped", "%s: a dropped request extended the query history" % where)
+            else:
+                hist[nid] = (lq + [t_req]) if kept_ else []
         if op[0] == "rotate":
             rot += 1
             continue
@@ -665,7 +736,8 @@ def oracle(case, run):
             continue
         if op[0] == "find":
             if e["obs"] is None:
-                report("harness/find-not-answered", "%s: no find-response (rate limit hit by the harness?)" % where)
+                if not limited and not e.get("exc"):
+                    report("ratelimit/request-wrongly-dropped", "%s: no find-response although the node is within its rate limit" % where)
                 continue
             tok, vals = e["obs"]
             addr, k = rqs[op[1]]
@@ -734,7 +806,7 @@ def oracle(case, run):
                 if (k, i) not in amap:
                     report("store/value-lost", "%s: a stored value disappeared on a store request" % where)
             # usefulness (so that a node that stores nothing does not pass): a fully valid request is served
-            if not accepted and not exc:
+            if not accepted and not exc and not limited:
                 own_ok = any(t == tok and tuple(a) == tuple(src) and p == pkbin and rot - ro < SPEC_TOKEN_GENERATIONS
                              for (t, a, p, ro, ti) in issued)
                 if own_ok and len(vals) <= SPEC_MAX_VALUES and all(len(v) <= SPEC_MAX_ENTRY_SIZE for v in vals):
@@ -915,17 +987,35 @@ def render(case, run):
     def opt(x, f):
         return "None" if x is None else "(Some %s)" % f(x)
     iops, exp = [], []
+    gops, gexp = [], []           # the same for the generated model, with the admission inputs
+    limited = False               # some request was dropped by the rate limit: beyond the hand model
+    cb_ = lambda b: "true" if b else "false"
     for e in run["trace"]:
         op = e["op"]
+        n_i, n_e = len(iops), len(exp)
         if op[0] == "find":
             iops.append("IFind %s %s %s %s" % (nid(op[1]), zl(op[2]), nid(op[3]), "true" if op[4] else "false"))
             tok, vals = e["obs"] if e["obs"] is not None else (b"", [])
             exp += [1] + fb(tok) + [len(vals)] + [idx(pool, v) for v in vals]
+            a = e["adm"]
+            gops.append("GIFind %s %s %s %s %s %s %s %s" % (nid(op[1]), zl(a[0]), zid(a[1]), cb_(a[2]), cb_(a[3]), zl(op[2]), zid(op[3]), cb_(op[4])))
+            if e["obs"] is None:
+                limited = True
+                gexp += [8, EXN.get(e["exc"][0], 13) if e.get("exc") else 0]
+            else:
+                gexp += exp[n_e:]
+            continue
         elif op[0] == "store":
             _, r, now, tok, target, vidx, nc = op
             iops.append("IStore %s %s %s %s [%s] %s" % (nid(r), zid(now), zl(tok), zl(target), ";".join(nid(i) for i in vidx), zid(nc)))
             resp, exc = e["obs"]
             exp += [2, int(resp), EXN.get(exc, 13) if exc else 0]
+            a = e["adm"]
+            gops.append("GIStore %s %s %s %s %s %s %s [%s] %s" % (nid(r), zl(a[0]), zid(a[1]), cb_(a[2]), cb_(a[3]), zl(tok), zl(target),
+                                                                  ";".join(nid(i) for i in vidx), zid(nc)))
+            gexp += exp[n_e:]
+            limited = limited or not e.get("admitted", True)
+            continue
         elif op[0] == "storepeer":
             iops.append("IStorePeer %s %s %s" % (nid(op[1]), zl(op[2]), zl(op[3])))
             exp += [3, int(e["obs"])]
@@ -962,13 +1052,27 @@ def render(case, run):
             exp += [7] + flat_state(pool, keys, *e["obs"])
         else:
             raise HarnessError("render %r" % (op,))
+        gops.append("GIBase (%s)" % iops[-1])
+        gexp += exp[n_e:]
+    if case["mode"] == "storage":
+        gops = []                 # the generated model replays the case's own operations
+    qfinal = []
+    for e in reversed(run["trace"]):
+        if "qafter" in e:
+            qfinal = e["qafter"]
+            break
+    gexp.append(len(qfinal))
+    for nid_, lq in qfinal:
+        gexp += fb(nid_) + [len(lq)] + lq
+    if limited:
+        iops, exp = [], []
     term = "(mkCase [%s] [%s] [%s] [%s] [%s] [%s] [%s] [%s] %s [%s])" % (
         ";".join(zl(v) for v in pool), ";".join(zl(k) for k in keys),
         ";".join(zl(sha1(v)) for v in pool), ";".join(zl(sha1(k)) for k in keys),
         ";".join(htok), ";".join(lens), ";".join(valid),
         ";".join("(%s, %s)" % (zl(addr_text(a)), nid(k)) for a, k in rqs),
         zl(run["secret0"]), ";".join(iops))
-    return term, zl(exp)
+    return term, zl(exp), "[%s]" % ";".join(gops), zl(gexp)
 
 
 # ---------------------------------------------------------------------------- generators
@@ -1180,6 +1284,38 @@ def gen_lookup(r, keys, i):
     return b.case()
 
 
+def gen_burst(r, keys, i):
+    """bursts of requests of one node within the rate-limit interval (10 per 5 s), mixed with a second node, with
+    finds and stores of valid and invalid tokens; the routing table full or not (kept / not kept senders)"""
+    b = CaseBuilder(r, "burst %d" % i, rt_fill=r.choice([0, 0, 8, 60]), keys=keys)
+    rq = r.choice([0, 3, 4])
+    other = r.choice([x for x in (0, 2, 3, 4) if x != rq])
+    b.tick()
+    b.op("find", rq, 0, 0, False)
+    b.op("store", rq, ("own", 0), 0, b.value("signed", k=b.rqs[rq][2], version=1))
+    n = r.randrange(12, 30)
+    for _ in range(n):
+        x = r.random()
+        who = rq if r.random() < 0.8 else other
+        if x < 0.45:
+            b.op("find", who, r.randrange(3), 0, r.random() < 0.2)
+        elif x < 0.8:
+            spec = ("own", 0) if r.random() < 0.7 else ("raw", r.randbytes(20).hex())
+            b.op("store", who, spec, r.randrange(3), b.value(r.choice(["plain", "signed", "oversized", "empty"]),
+                                                              k=b.rqs[who][2], version=r.randrange(4)))
+        elif x < 0.9:
+            b.tick(r.choice([1, 1, 2, 4, 5, 6]))
+        elif x < 0.95:
+            b.op("rotate")
+        else:
+            b.op("snap")
+    b.tick(r.choice([4, 5, 6]))
+    b.op("find", rq, 0, 0, False)
+    b.op("store", rq, ("own", 0), 1, b.value("plain"))
+    b.op("snap")
+    return b.case()
+
+
 def gen_storage(r, i, n_ops):
     """a bare Storage: puts with differing lifetimes / versions / ids (incl. id == key), cleans, reads"""
     targets = [r.randbytes(r.choice([1, 2, 20])) for _ in range(r.choice([1, 2, 3]))]
@@ -1289,7 +1425,8 @@ def process(case):
     try:
         run = run_impl(case)
         bad = oracle(case, run)
-        term, exp = render(case, run)
+        term, exp, gops, gexp = render(case, run)
+        term, exp = (term, gops), (exp, gexp)
         nontrivial = sum(1 for e in run["trace"] if e["op"][0] in ("store", "put") and e["after"] != e.get("before"))
         stats = {"ops": len(run["trace"]), "stores": sum(1 for e in run["trace"] if e["op"][0] == "store"),
                  "accepted": sum(1 for e in run["trace"] if e["op"][0] == "store" and (e["obs"][0] or e["after"] != e["before"])),
@@ -1359,24 +1496,36 @@ def run(ctx):
     except (tr_expr.Unsupported, Exception) as e:   # noqa
         ctx.broke("translator tr_dht_consts aborted", e)
         text = None
+    # the store path itself, compiled from the AST
+    try:
+        from tools.tr import tr_dht_handlers
+        htext = tr_dht_handlers.write()
+        ctx.extra["generated"]["gen/G15_handlers.v"] = hashlib.sha256(htext.encode()).hexdigest()[:16]
+    except (tr_expr.Unsupported, Exception) as e:   # noqa
+        ctx.broke("translator tr_dht_handlers aborted", e)
+        htext = None
     # ---- stage P
     if text is not None:
         ctx.proofs()
+        if htext is not None:
+            ctx.proofs(part="C15x")     # the property over the generated definitions + the rate limit
     ctx.coverage["trusted_base"] = [
         "Coq 8.16.1 kernel (coqc, vm_compute); no axioms (Print Assumptions: closed)",
         "hand model coq/model/M15_dht_store.v of storage.py / the store, find and store-peer handlers / the value codec, tied by this run's correspondence",
         "translator tools/tr/tr_dht_consts.py (limits, rotation period, deque bound read from the source)",
+        "translator tools/tr/tr_dht_handlers.py (Python ast -> Gallina over the vocabulary coq/model/M15_py.v) and the "
+        "interpreter of handler effects coq/model/M15_store_gen.v, both also tied by this run's correspondence",
         "SHA-1 as a collision-free function, base64 as an injective space-free text encoding, unforgeability of the signature primitive (Section hypotheses)",
         "harness: hand-packed datagrams, virtual clock in whole seconds, the routing-table count of closer nodes recomputed by the harness",
     ]
-    ctx.assumptions = ["requests of one node are at least a second apart (the per-node rate limit is not modelled)",
+    ctx.assumptions = ["whether the routing table holds / keeps the sender of a request is an input of the rate-limit model (C14's business)",
                        "IPv4 requesters that are not verified multi-interface peers (the handler's peer.address is the datagram's source)",
                        "token secrets are pairwise distinct (os.urandom) for the window statement"]
     keys = new_keys(r)
     cases = []
     cases += gen_matrix(r, keys, ctx.quick)
     n_matrix = len(cases)
-    for i in range(24 if ctx.quick else 300):
+    for i in range(18 if ctx.quick else 300):
         cases.append(gen_random_node(r, keys, i))
     for i in range(6 if ctx.quick else 40):
         cases.append(gen_random_node(r, keys, i, timers=True))
@@ -1384,8 +1533,10 @@ def run(ctx):
         cases.append(gen_window(r, keys, i))
     for i in range(10 if ctx.quick else 80):
         cases.append(gen_lookup(r, keys, i))
+    for i in range(10 if ctx.quick else 80):
+        cases.append(gen_burst(r, keys, i))
     n_node = len(cases)
-    for i in range(1200 if ctx.quick else 20000):
+    for i in range(600 if ctx.quick else 20000):
         cases.append(gen_storage(r, i, r.choice([8, 12, 20, 30]) if i % 10 else 80))
     with multiprocessing.Pool(12) as pool:
         results = pool.map(process, cases, chunksize=8)
@@ -1396,7 +1547,10 @@ def run(ctx):
         if err is not None:
             ctx.broke("harness failed on case %r" % c["label"], err)
             continue
-        coq_cases.append((term, exp))
+        if htext is not None:
+            coq_cases.append(("(%s, %s)" % term, "%s ++ zm7777 :: %s" % exp))
+        else:
+            coq_cases.append((term[0], exp[0]))
         coq_idx.append(idx)
         ctx.count((c["label"], idx), nontrivial=stats["changing"] > 0 or c["label"].startswith("lookup"))
         for k, v in stats.items():
@@ -1421,16 +1575,23 @@ def run(ctx):
         ctx.sample({"label": c["label"], "operations": c["ops"][:14], "pool": len(c["pool"])})
     # ---- model inside Coq
     if text is not None:
-        mism, errs = coqrun.eval_mismatches(IMPORTS, "run_case", "bytes_eqb", coq_cases, os.path.join(ctx.scratch, "dht"),
-                                            ctype="case * list Z", shard=40 if ctx.quick else 80, jobs=12, timeout=900,
-                                            max_bytes=400000)
+        if htext is not None:
+            mism, errs = coqrun.eval_mismatches(IMPORTS_GEN, "run_both", "bytes_eqb", coq_cases, os.path.join(ctx.scratch, "dht"),
+                                                ctype="(case * list giop) * list Z", shard=40 if ctx.quick else 80, jobs=12,
+                                                timeout=900, max_bytes=400000, preamble="Definition zm7777 : Z := (-7777)%Z.")
+        else:
+            mism, errs = coqrun.eval_mismatches(IMPORTS, "run_case", "bytes_eqb", coq_cases, os.path.join(ctx.scratch, "dht"),
+                                                ctype="case * list Z", shard=40 if ctx.quick else 80, jobs=12, timeout=900,
+                                                max_bytes=400000)
         for e in errs[:5]:
             ctx.broke("model evaluation failed", e)
         for j in mism[:6]:
             c = cases[coq_idx[j]]
             detail = {"label": c["label"], "impl_flat": coq_cases[j][1][:800], "case": c}
             if j == mism[0]:
-                detail["model_flat"] = coqrun.eval_terms(IMPORTS, ["run_case %s" % coq_cases[j][0]], os.path.join(ctx.scratch, "dbg"))[-2500:]
+                detail["model_flat"] = coqrun.eval_terms(IMPORTS_GEN if htext is not None else IMPORTS,
+                                                         ["%s %s" % ("run_both" if htext is not None else "run_case", coq_cases[j][0])],
+                                                         os.path.join(ctx.scratch, "dbg"))[-2500:]
             ctx.broke("correspondence: model and implementation differ on case %r" % c["label"], json.dumps(detail)[:3900])
         ctx.coverage["traces_validated_against_impl"] += len(coq_cases) - len(mism)
     ctx.coverage["rule"] = (
